@@ -136,13 +136,11 @@ Qed.
 Lemma canary_status_ordered : forall rs ann oc now cn listed items st0 cp,
   manage_canary_status rs ann oc now cn listed items st0 = Ok cp -> counters_ordered (cp_status cp).
 Proof.
-  intros rs ann oc now cn listed items st0 cp H. unfold manage_canary_status in H.
-  destruct (canary_cfg_of oc) as [cfg|]; [|discriminate].
-  destruct (canary_paused ann (Some (r_status rs))) as [paused0 reason0].
+  intros rs ann oc now cn listed items st0 cp H. apply manage_canary_inv in H. cbv zeta in H.
+  destruct H as [l [conds4 [_ [_ [_ [_ [_ Hs]]]]]]].
   pose proof (canary_scan_ordered rs listed items cn (MkCScan 0 0 0 0 false [] [] []) ltac:(cbn; lia)) as Ho.
-  match type of H with context [if ?c then (false, R_EMPTY) else _] => destruct c end;
-  apply bind_ok in H; destruct H as [l [_ H]]; injection H as <-; unfold counters_ordered; cbn [cp_status rs_available rs_ready rs_current rs_desired];
-  cbv zeta in Ho; lia.
+  cbv zeta in Ho. unfold canary_scan_of in Hs. rewrite Hs. unfold counters_ordered.
+  cbn [rs_available rs_ready rs_current rs_desired]. lia.
 Qed.
 
 Lemma finish_sync_counters : forall sn cx so pl, finish_sync sn cx so = Ok pl ->
@@ -150,7 +148,6 @@ Lemma finish_sync_counters : forall sn cx so pl, finish_sync sn cx so = Ok pl ->
     st = with_conds (match so_status so with Some s => s | None => r_status (sn_rs sn) end) cs.
 Proof.
   intros sn cx so pl H. unfold finish_sync in H.
-  match type of H with (if ?c then _ else _) = _ => destruct c; [discriminate|] end.
   match type of H with (if ?c then _ else _) = _ => destruct c; [|discriminate] end.
   injection H as <-. cbn [pl_status]. eexists; eexists. split; reflexivity.
 Qed.
